@@ -1817,3 +1817,34 @@ func c20nestedTemplate(c *core.Check) {
 			fmt.Sprintf("with enable_nested_struct an explicit template=%v is overwritten with slim (the guard is true for it): raw_struct, which the README documents as valid for nested structs, silently produces slim code", bad))
 	}
 }
+
+// ---------------------------------------------------------------------------------------------------------------------
+// C08/C01: the result struct of a non-void method gets a synthesized field named "success" next to the declared throws
+// fields. A throws field that is itself called `success` collides with it (both become `Success`, `GetSuccess`,
+// `<Result>_Success_DEFAULT`). Rule: somewhere between the checker and buildSynthesized the name is refused or renamed —
+// i.e. the literal "success" is compared against a throws field's name.
+func c08successNameFree(c *core.Check) {
+	key := golangRel + ".buildSynthesized/success-name"
+	found := ""
+	for _, spec := range [][2]string{{"semantic", "checker.CheckFunctions"}, {golangRel, "buildSynthesized"}, {golangRel, "Scope.buildFunction"}} {
+		fd := c.Prog.FuncDecl(spec[0], spec[1])
+		if fd == nil {
+			continue
+		}
+		info := c.Prog.Pkg(spec[0]).TypesInfo
+		ast.Inspect(fd.Body, func(n ast.Node) bool {
+			be, ok := n.(*ast.BinaryExpr)
+			if !ok || (be.Op != token.EQL && be.Op != token.NEQ) {
+				return true
+			}
+			for _, side := range []ast.Expr{be.X, be.Y} {
+				if s, ok := rules.ConstString(info, side); ok && strings.EqualFold(s, "success") {
+					found = spec[1]
+				}
+			}
+			return true
+		})
+	}
+	c.Decide(found != "", "synth-success-name-free", key, "generator/golang/scope.go", "a throws field named success is handled in "+found,
+		"nothing compares a throws field's name with the synthesized \"success\": `i32 g() throws (1: E success)` gives the result struct two fields called Success (redeclared Success_DEFAULT / GetSuccess), thriftgo exits 0 and the generated package does not compile")
+}
